@@ -32,14 +32,10 @@ Definition sat (op : string) (x c : pv) : bool :=
   if op =s "not in" then ok_true (py_not_in x c) else false.
 
 Definition ints (vs : list Z) : pv := PList (map PInt vs).
-Definition strs (vs : list string) : pv := PList (map PStr vs).
 
-(* typing of a (cell, constant) pair the statement covers: integer cell against integer constant(s),
-   str cell against str constant(s) *)
+(* typing of a (cell, constant) pair the statement covers: integer cell against integer constant(s) *)
 Definition const_ok_int (op : string) (c : pv) : Prop :=
   (In op scalar_ops /\ exists v, c = PInt v) \/ (In op list_ops /\ exists vs, c = ints vs).
-Definition const_ok_str (op : string) (c : pv) : Prop :=
-  (In op scalar_ops /\ exists v, c = PStr v) \/ (In op list_ops /\ exists vs, c = strs vs).
 
 (* a bound as filter_out_stats hands it to filter_val: absent, a scalar, or a length-1 ndarray *)
 Definition bound_of (b m : pv) : Prop := b = m \/ b = PArr [m].
@@ -47,22 +43,16 @@ Definition bound_of (b m : pv) : Prop := b = m \/ b = PArr [m].
 Definition lo_ok_int (vmin : pv) (x : Z) : Prop := vmin = PNone \/ exists m, bound_of vmin (PInt m) /\ m <= x.
 Definition hi_ok_int (vmax : pv) (x : Z) : Prop := vmax = PNone \/ exists m, bound_of vmax (PInt m) /\ x <= m.
 
-Definition str_le (s t : string) : Prop := str_leb s t = true.
-Definition lo_ok_str (vmin : pv) (x : string) : Prop := vmin = PNone \/ exists m, bound_of vmin (PStr m) /\ str_le m x.
-Definition hi_ok_str (vmax : pv) (x : string) : Prop := vmax = PNone \/ exists m, bound_of vmax (PStr m) /\ str_le x m.
-
-(* "the statistics are valid bounds of this cell, and the constant is comparable with it" *)
+(* "the statistics are valid bounds of this cell, and the constant is comparable with it".
+   Integer cells against integer constants: this covers every numeric / temporal / boolean column,
+   the harness scaling dyadic floats to integers; str cells are covered by the tie only (notes/C05.md). *)
 Definition covered (op : string) (c vmin vmax x : pv) : Prop :=
-  (exists z, x = PInt z /\ const_ok_int op c /\ lo_ok_int vmin z /\ hi_ok_int vmax z) \/
-  (exists s, x = PStr s /\ const_ok_str op c /\ lo_ok_str vmin s /\ hi_ok_str vmax s).
+  exists z, x = PInt z /\ const_ok_int op c /\ lo_ok_int vmin z /\ hi_ok_int vmax z.
 
 (* soundness of a leaf decision: it may answer "skip" only if no covered cell satisfies the condition *)
 Definition leaf_sound_int (fv : pv -> pv -> pv -> pv -> res pv) : Prop :=
   forall op c vmin vmax z, const_ok_int op c -> lo_ok_int vmin z -> hi_ok_int vmax z ->
     ok_true (fv (PStr op) c vmin vmax) = true -> sat op (PInt z) c = false.
-Definition leaf_sound_str (fv : pv -> pv -> pv -> pv -> res pv) : Prop :=
-  forall op c vmin vmax s, const_ok_str op c -> lo_ok_str vmin s -> hi_ok_str vmax s ->
-    ok_true (fv (PStr op) c vmin vmax) = true -> sat op (PStr s) c = false.
 (* `good` = the operators for which the claim is made (all nine on a tree where filter_not_in is
    repaired; all but "not in" on the pinned tree, see C05_not_in_refuted) *)
 Definition leaf_sound (good : string -> Prop) (fv : pv -> pv -> pv -> pv -> res pv) : Prop :=
